@@ -50,7 +50,7 @@ func init() {
 			{Name: "go-sev-guest / go-tdx-guest / protobuf decoders underneath", Kind: "real"},
 			{Name: "channel, readers, network, file IO", Kind: "stub"},
 		},
-		Budget: core.StdBudget(2000, 100*time.Second, 400000, 25*time.Minute),
+		Budget: core.StdBudget(2000, 100*time.Second, 400000, 9*time.Minute),
 		Body:   runC07,
 	})
 }
